@@ -201,6 +201,23 @@ CLAIMS = {
          "are not covered; the C compiler is the installed gcc (-O2; -O0 too in the thorough tier).",
     technique="TLA+ executable reference semantics (OrcOps/OrcProg) evaluated by TLC on traces of gcc-compiled "
               "generated C; byte comparison of the regenerated emulator"),
+ "C18": dict(
+    text="OrcFloat.tla defines bit for bit, from the bytes of the operands, flushing of denormal operands and results, "
+         "comparison masks, min/max selection (either operand when numerically equal, a NaN when an operand is one), "
+         "float->int truncation with saturation, int->float round-to-nearest-even, float->double, and the NaN rule; "
+         "the correctly rounded core of + - * / sqrt and double->float is the host's IEEE result logged with the "
+         "event, accepted only after the specification has checked the operand flushing and the sanity of that result "
+         "(all special cases, sign, exponent window; a contradiction is a machinery error, never a verdict).  h_ops "
+         "runs one-opcode programs for all 27 float/double opcodes over all pairs of structured operand tables plus "
+         "seeded random operands, second operand as array / float-double parameter / constant, x1/x2, on emulation, "
+         "native sse and avx and gcc-compiled generated C; TLC validates every lane (Trace_Float) and the bit-for-bit "
+         "agreement with emulation on finite operands.",
+    design_ref="DESIGN.md section 6 C18",
+    note="Known finding F20: when the exact result is below the smallest normal number but rounds up to it, hardware "
+         "flush-to-zero gives 0 and emulation/C give the smallest normal (mulf, divf, muld, divd, convdf on sse/avx).  "
+         "NaN payloads and NaN->int are unconstrained.  mmx has no float rules.",
+    technique="TLA+ executable float semantics (OrcFloat) evaluated by TLC on traces of emulation, native code and "
+              "compiled generated C, with a spec-checked host-IEEE oracle for the rounded core"),
  "C01": dict(
     text="Native code is judged against the reference semantics directly (so native = emulation follows and a shared "
          "error would still be caught).  (1) One-opcode programs for every integer opcode compiled for avx, sse and "
